@@ -152,6 +152,8 @@ def api_case(case: dict) -> dict:
             lit = [c for c in g if c not in "*\\"]
             extra += [lit, [twin.get(c, c) for c in lit], ["d", "/"] + lit, ["d", "/"] + [twin.get(c, c) for c in lit]]
         paths = extra + paths[:40]
+    if case.get("explicit_paths"):
+        paths = case["explicit_paths"]
     obs = [bool(item.matches(uni(p))) for p in paths]
     return {"tid": case["id"], "globs": case["globs"], "paths": paths, "obs": obs, "via": "api",
             "impl": case.get("impl") or []}
@@ -329,6 +331,12 @@ def run(ctx: core.Ctx) -> int:
                           "full_len": 2 if (q or len(c["globs"]) > 1 or len(c["globs"][0]) > 5) else 3})
     for g_ in ([["K", ".", "t"]], [["Q", "*"]], [["*", "*", "/", "K"]], [["E", ".", "t"]], [["F", "*"]], [["d", "/", "*", "E"]], [["K"], ["F", ".", "t"]]):
         api_cases.append({"id": 30_000_000 + len(api_cases), "globs": g_, "seed": ctx.seed, "impl": [], "n_random": 20, "full_len": 1, "unicode": True})
+    # one table that lists very many paths (100 and more): every one of them is covered, nothing else is
+    for n_ in (99, 100, 101, 130, 205):
+        names = [list(f"a/f{k:03}.t") for k in range(n_)]
+        others = [list(f"a/f{k:03}.t") for k in range(n_, n_ + 5)] + [list("a/f000.tx"), list("b/f001.t")]
+        api_cases.append({"id": 31_000_000 + n_, "globs": names, "seed": ctx.seed, "impl": [], "n_random": 0, "full_len": 0,
+                          "explicit_paths": names + others})
     events = ctx.pmap(api_case, api_cases)
     lint_n = 160 if q else 2500
     lint_cases = [{**c, "nested": bool(i % 2), "relroot": i % 4 >= 2} for i, c in enumerate(rnd.sample(cases, min(lint_n, len(cases))))]
